@@ -1400,9 +1400,12 @@ func (r *Raft) InstallSnapshot(
 
 	r.lastContact = time.Now()
 
-	// The received snapshot does not contain anything new.
+	// The received snapshot does not contain anything new. Acknowledge the chunk anyway:
+	// the leader only moves on to the next chunk, and eventually considers the snapshot
+	// installed, if the number of bytes written matches what it has sent.
 	if r.lastIncludedIndex >= request.LastIncludedIndex ||
 		r.lastApplied >= request.LastIncludedIndex {
+		response.BytesWritten = request.Offset + int64(len(request.Bytes))
 		return nil
 	}
 
